@@ -11,6 +11,7 @@ import (
 )
 
 type retPoint struct {
+	block int
 	pc   Term
 	vals []Val
 	st   *State
@@ -134,7 +135,28 @@ func (fr *Frame) edgeCond(st *State, pred, b *ssa.BasicBlock) Term {
 // run executes the function body from the given entry state.
 func (fr *Frame) run(st0 *State, pc0 Term) {
 	e := fr.e
+	if fr.top {
+		e.reach = map[int]map[int]bool{}
+		for _, a := range fr.fn.Blocks {
+			seen := map[int]bool{a.Index: true}
+			stack := []*ssa.BasicBlock{a}
+			for len(stack) > 0 {
+				x := stack[len(stack)-1]
+				stack = stack[:len(stack)-1]
+				for _, s := range x.Succs {
+					if !seen[s.Index] {
+						seen[s.Index] = true
+						stack = append(stack, s)
+					}
+				}
+			}
+			e.reach[a.Index] = seen
+		}
+	}
 	for _, b := range rpo(fr.fn) {
+		if fr.top {
+			e.curBlock = b.Index
+		}
 		var st *State
 		var pc Term
 		if b.Index == 0 {
@@ -788,6 +810,40 @@ func (fr *Frame) lookupName(name string, st *State, rt *loopRt, phis map[*ssa.Ph
 	if best != nil {
 		return e.load(st, fr.vals[best], token.NoPos), true
 	}
+	// debug refs: latest dominating definition
+	var bestV ssa.Value
+	for _, cand := range fr.names[name] {
+		ins, ok := cand.(ssa.Instruction)
+		if !ok {
+			// parameters: visible everywhere, dominated by every instruction
+			if _, isParam := cand.(*ssa.Parameter); isParam && bestV == nil {
+				if _, ev := fr.vals[cand]; ev {
+					bestV = cand
+				}
+			}
+			continue
+		}
+		if _, ev := fr.vals[cand]; !ev {
+			continue
+		}
+		if at != nil && !(ins.Block().Dominates(at) && ins.Block() != at) {
+			// values defined in the loop body are not visible at the head
+			if _, isPhi := cand.(*ssa.Phi); !(isPhi && ins.Block() == at) {
+				continue
+			}
+		}
+		if bi, isIns := bestV.(ssa.Instruction); bestV == nil || !isIns || bi.Block().Dominates(ins.Block()) {
+			bestV = cand
+		}
+	}
+	if bestV != nil {
+		if phi, ok := bestV.(*ssa.Phi); ok && phis != nil {
+			if v, ok := phis[phi]; ok {
+				return v, true
+			}
+		}
+		return fr.vals[bestV], true
+	}
 	for _, p := range fr.fn.Params {
 		if p.Name() == name {
 			if v, ok := fr.vals[p]; ok {
@@ -801,34 +857,6 @@ func (fr *Frame) lookupName(name string, st *State, rt *loopRt, phis map[*ssa.Ph
 				return e.load(st, v, token.NoPos), true
 			}
 		}
-	}
-	// debug refs: latest dominating definition
-	var bestV ssa.Value
-	for _, cand := range fr.names[name] {
-		ins, ok := cand.(ssa.Instruction)
-		if !ok {
-			continue
-		}
-		if _, ev := fr.vals[cand]; !ev {
-			continue
-		}
-		if at != nil && !(ins.Block().Dominates(at) && ins.Block() != at) {
-			// values defined in the loop body are not visible at the head
-			if _, isPhi := cand.(*ssa.Phi); !(isPhi && ins.Block() == at) {
-				continue
-			}
-		}
-		if bestV == nil || bestV.(ssa.Instruction).Block().Dominates(ins.Block()) {
-			bestV = cand
-		}
-	}
-	if bestV != nil {
-		if phi, ok := bestV.(*ssa.Phi); ok && phis != nil {
-			if v, ok := phis[phi]; ok {
-				return v, true
-			}
-		}
-		return fr.vals[bestV], true
 	}
 	if fr.parent != nil {
 		return fr.parent.lookupName(name, st, nil, nil)
